@@ -1,6 +1,7 @@
 """Miscellaneous Routines."""
 
 import io
+import math
 import pathlib
 import string
 from html import escape
@@ -377,7 +378,7 @@ def fsplit(pred: Callable[[_T], bool], objs: Iterable[_T]) -> Tuple[List[_T], Li
 
 def drange(v0: float, v1: float, d: int) -> range:
     """Returns a discrete range."""
-    return range(int(v0) // d, int(v1 + d) // d)
+    return range(math.floor(v0) // d, math.floor(v1 + d) // d)
 
 
 def get_bound(pts: Iterable[Point]) -> Rect:
